@@ -15,6 +15,10 @@ CLAIMED = {
    text="Every scenario of a corpus covering all default side-effect paths is run fault-free and once per fallible Database/Transport/callback call with that call failing; a monitor inside the simulated Database checks balance, re-entry, unlock-without-lock and lock-held-on-access per request. The single-fault space of the corpus is swept completely; everything beyond is seeded sampling.",
    note="Trusts SimDB's lock semantics (non-reentrant per-id mutex; failed Lock takes nothing, failed Unlock still frees) as the meaning of 'good-faith application'; 'holds a lock' = holds at least one. Evidence is sampling beyond the swept corpus, not proof.",
    design="5/C09"),
+ "C08": dict(level="exploration", technique="deterministic simulation: seeded schedule search (random walk, sticky, PCT) over 2-5 concurrent requests at Database/Transport/callback granularity; sequential-equivalence oracle, porcupine linearizability of inbox/outbox histories, deadlock detection by wait-for cycles",
+   text="Real Actor methods run as tasks under a seeded scheduler that owns every interleaving at seam granularity, with nested deliveries between two simulated servers. Each concurrent run is compared, collection by collection, with the same requests executed sequentially in every order; inbox/outbox post/read histories are checked with porcupine; duplicate deliveries are counted; a fault class checks that everything still completes when one call fails.",
+   note="Sampling of schedules (seeded), not exhaustive enumeration. Assumes SimDB's per-id mutual exclusion and copy semantics. Sequential reference is the library itself run one request at a time.",
+   design="5/C08"),
 }
 PENDING = [p for p in ALL if p not in NA and p not in CLAIMED]
 checks = []
